@@ -126,6 +126,14 @@ Definition last_err (calls : list ocall) : option cerr :=
 Definition all_full (calls : list ocall) : bool :=
   forallb (fun '(_, l, k, e) => (k =? l)%nat && match e with None => true | _ => false end) calls.
 
+(** "ReadAt fills p with the file's bytes up to end of file": when every backend call of the run returned all the
+    file had for it (no short count, no failure — judged on the backend's log against the file), the caller got
+    min(len p, size - off) bytes *)
+Definition avail_from (size o : Z) : nat := Z.to_nat (Z.max 0 (size - o)).
+Definition fills_to_eof (size off : Z) (lenp n : nat) (calls : list ocall) : bool :=
+  if forallb (fun '(o, l, k, e) => match e with None => (k =? Nat.min l (avail_from size o))%nat | Some _ => false end) calls
+  then (n =? Nat.min lenp (avail_from size off))%nat else true.
+
 Definition property_holds (c : c11case) : bool :=
   match c with
   | CDirect _ _ _ _ _ _ _ _ content_ok => content_ok
@@ -144,13 +152,18 @@ Definition property_holds (c : c11case) : bool :=
       let x := (N.to_nat n + N.to_nat stored)%nat in
       (n <=? lenp)%N &&
       list_eqb N.eqb (firstn x (skipn (Z.to_nat (off - wstart)) window)) (firstn x (pattern a c lenp))
-  | CBigR _ _ a c lenp off base fa fc flen _ n err _ buf_after =>
+  | CBigR _ _ a c lenp off base fa fc flen tape n err calls buf_after =>
       let nn := N.to_nat n in
       (n <=? lenp)%N && ((n =? 0)%N || (base <=? off)%Z && (off + Z.of_nat nn <=? base + Z.of_N flen)%Z) &&
       list_eqb N.eqb (firstn nn buf_after) (firstn nn (skipn (Z.to_nat (off - base)) (pattern fa fc flen))) &&
       list_eqb N.eqb (skipn nn buf_after) (skipn nn (pattern a c lenp)) &&
       (if oerr_eqb err (Some CEOF) then (n <? lenp)%N else true) &&
-      (if (n =? 0)%N && (0 <? lenp)%N then negb (oerr_eqb err None) else true)
+      (if (n =? 0)%N && (0 <? lenp)%N then negb (oerr_eqb err None) else true) &&
+      (* up to end of file when the backend was not scripted to answer short or to fail *)
+      (let size := (if (flen =? 0)%N then 0 else base + Z.of_N flen)%Z in
+       if list_eqb (fun '(k, e) '(_, l, o) => match e with None | Some CEOF => (N.to_nat k =? Nat.min (N.to_nat l) (avail_from size o))%nat | _ => false end)
+                   tape calls
+       then (N.to_nat n =? Nat.min (N.to_nat lenp) (avail_from size off))%nat else true)
   | CRead _ cs p0 off base file0 _ n err calls buf_after =>
       let csn := N.to_nat cs in
       let lenp := length p0 in
@@ -159,6 +172,7 @@ Definition property_holds (c : c11case) : bool :=
       (* p[:n] = file[off:off+n], inside the file *)
       list_eqb N.eqb (firstn n buf_after) (rf_read (rf_of_seg base file0) off n) &&
       (length (rf_read (rf_of_seg base file0) off n) =? n)%nat &&
+      fills_to_eof (rf_size (rf_of_seg base file0)) off lenp n calls &&
       (* io.EOF only if fewer than len p bytes were delivered; an error whenever none were for a non-empty p *)
       (if oerr_eqb err (Some CEOF) then (n <? lenp)%nat else true) &&
       (if (n =? 0)%nat && (0 <? lenp)%nat then negb (oerr_eqb err None) else true) &&
